@@ -7,11 +7,12 @@
 //
 // Case string (also the --replay argument):
 //   T:<parent of G1>.<..>  P:<group of W1>.<W2>.<W3>  WE:i.i.i  GE:i.. K:k.k.k
-//   U:u D:d X:x S:s.s.s I:i Q:<len><a|s>...
+//   U:u D:d X:x N:n S:s.s.s I:i Q:<len><a|s>...
 //   parent -1 = FIELD; WE/GE index into the per-entity efficiency alphabets;
 //   K 0 producer (WCONHIST) 1 water injector 2 gas injector (WCONINJH);
 //   U 0 METRIC 1 FIELD 2 LAB 3 PVT-M; D start date index; X 1 = every efficiency factor moves to the next value of its
-//   alphabet at the second report step; S 0 open 1 shut 2 stop;
+//   alphabet at the second report step; N well naming (0: declared in name order, 1-5: other permutations of A B C,
+//   6: W_2 W_9 W_10); S 0 open 1 shut 2 stop;
 //   I 1 = evaluate report step 0 at t=0 first; Q evaluation sequence, element
 //   = length index (0: 1 d, 1: 10 d, 2: 0.5 d) + 'a' (closes its report step)
 //   or 's' (ministep, the report step continues with the next element).
@@ -51,7 +52,11 @@ static const double GEF[4][3] = {{1, 0.61, 0.37}, {1, 0.67, 0.41}, {1, 0.71, 0.4
 static const double LEN[3] = {1.0, 10.0, 0.5};                    // days
 struct StartDate { int d; const char* mon; int m; int y; };
 static const StartDate STARTS[3] = {{25, "DEC", 12, 2019}, {20, "FEB", 2, 2020}, {22, "FEB", 2, 2021}};
-static const char* WN[3] = {"W1", "W2", "W3"};
+// well names by declaration slot (WELSPECS always declares slot 0, 1, 2): naming 0 has declaration order = name order,
+// 1..5 are the other permutations of A, B, C (1 = reverse alphabetical, 2 = B A C), 6 is declared in numeric order
+// whose lexicographic order differs (W_10 < W_2 < W_9)
+static const char* WNAMES[7][3] = {{"W1", "W2", "W3"}, {"OP_C", "OP_B", "OP_A"}, {"OP_B", "OP_A", "OP_C"}, {"OP_A", "OP_C", "OP_B"},
+                                   {"OP_B", "OP_C", "OP_A"}, {"OP_C", "OP_A", "OP_B"}, {"W_2", "W_9", "W_10"}};
 static const char* GN[4] = {"G1", "G2", "G3", "G4"};
 
 struct Case {
@@ -61,7 +66,8 @@ struct Case {
     int we[3] = {0, 0, 0};
     int ge[4] = {0, 0, 0, 0};
     int kind[3] = {0, 0, 0};
-    int us = 0, start = 0, xe = 0;
+    int us = 0, start = 0, xe = 0, naming = 0;
+    const char* wn(int w) const { return WNAMES[naming][w]; }
     int status[3] = {0, 0, 0};
     int init = 0;
     std::vector<std::pair<int, int>> seq = {{0, 0}};     // (length index, ministep flag)
@@ -73,7 +79,7 @@ struct Case {
         s += " WE:"; for (int i = 0; i < 3; ++i) s += (i ? "." : "") + std::to_string(we[i]);
         s += " GE:"; for (int i = 0; i < ng; ++i) s += (i ? "." : "") + std::to_string(ge[i]);
         s += " K:"; for (int i = 0; i < 3; ++i) s += (i ? "." : "") + std::to_string(kind[i]);
-        s += " U:" + std::to_string(us) + " D:" + std::to_string(start) + " X:" + std::to_string(xe);
+        s += " U:" + std::to_string(us) + " D:" + std::to_string(start) + " X:" + std::to_string(xe) + " N:" + std::to_string(naming);
         s += " S:"; for (int i = 0; i < 3; ++i) s += (i ? "." : "") + std::to_string(status[i]);
         s += " I:" + std::to_string(init) + " Q:";
         for (auto& e : seq) { s += std::to_string(e.first); s += e.second ? 's' : 'a'; }
@@ -105,6 +111,7 @@ struct Case {
             else if (k == "U") c.us = iv.at(0);
             else if (k == "D") c.start = iv.at(0);
             else if (k == "X") c.xe = iv.at(0);
+            else if (k == "N") { c.naming = iv.at(0); if (c.naming < 0 || c.naming > 6) throw std::runtime_error("bad naming"); }
             else if (k == "S") for (int i = 0; i < 3; ++i) c.status[i] = iv.at(i);
             else if (k == "I") c.init = iv.at(0);
             else if (k == "Q") { c.seq.clear(); for (size_t i = 0; i + 1 < v.size(); i += 2) c.seq.push_back({v[i] - '0', v[i + 1] == 's'}); }
@@ -149,28 +156,28 @@ static std::string render_schedule(const Case& c) {
     std::string s = "SCHEDULE\nGRUPTREE\n";
     for (int i = 0; i < c.ng; ++i) s += std::string(" '") + GN[i] + "' '" + (c.par[i] < 0 ? "FIELD" : GN[c.par[i]]) + "' /\n";
     s += "/\nWELSPECS\n";
-    for (int w = 0; w < 3; ++w) s += std::string(" '") + WN[w] + "' '" + GN[c.wg[w]] + "' " + std::to_string(w + 1) + " " + std::to_string(w + 1) + " 1* " + (c.kind[w] == 0 ? "OIL" : c.kind[w] == 1 ? "WATER" : "GAS") + " /\n";
+    for (int w = 0; w < 3; ++w) s += std::string(" '") + c.wn(w) + "' '" + GN[c.wg[w]] + "' " + std::to_string(w + 1) + " " + std::to_string(w + 1) + " 1* " + (c.kind[w] == 0 ? "OIL" : c.kind[w] == 1 ? "WATER" : "GAS") + " /\n";
     s += "/\nCOMPDAT\n";
-    for (int w = 0; w < 3; ++w) s += std::string(" '") + WN[w] + "' " + std::to_string(w + 1) + " " + std::to_string(w + 1) + " 1 2 OPEN 1* 1* 0.2 /\n";
+    for (int w = 0; w < 3; ++w) s += std::string(" '") + c.wn(w) + "' " + std::to_string(w + 1) + " " + std::to_string(w + 1) + " 1 2 OPEN 1* 1* 0.2 /\n";
     s += "/\n";
     auto lens = c.report_lengths();
     for (size_t r = 0; r < lens.size(); ++r) {
         std::string hp, hi;
         for (int w = 0; w < 3; ++w) {
-            if (c.kind[w] == 0) hp += std::string(" '") + WN[w] + "' OPEN ORAT " + num(fp_hist(w, 0, r)) + " " + num(fp_hist(w, 1, r)) + " " + num(fp_hist(w, 2, r)) + " /\n";
-            else hi += std::string(" '") + WN[w] + "' " + (c.kind[w] == 1 ? "WATER" : "GAS") + " OPEN " + num(fp_hist(w, c.kind[w], r)) + " /\n";
+            if (c.kind[w] == 0) hp += std::string(" '") + c.wn(w) + "' OPEN ORAT " + num(fp_hist(w, 0, r)) + " " + num(fp_hist(w, 1, r)) + " " + num(fp_hist(w, 2, r)) + " /\n";
+            else hi += std::string(" '") + c.wn(w) + "' " + (c.kind[w] == 1 ? "WATER" : "GAS") + " OPEN " + num(fp_hist(w, c.kind[w], r)) + " /\n";
         }
         if (!hp.empty()) s += "WCONHIST\n" + hp + "/\n";
         if (!hi.empty()) s += "WCONINJH\n" + hi + "/\n";
         if (r == 0) {
             std::string we, ge;
-            for (int w = 0; w < 3; ++w) if (c.we[w]) we += std::string(" '") + WN[w] + "' " + num(WEF[w][c.we[w]]) + " /\n";
+            for (int w = 0; w < 3; ++w) if (c.we[w]) we += std::string(" '") + c.wn(w) + "' " + num(WEF[w][c.we[w]]) + " /\n";
             for (int g = 0; g < c.ng; ++g) if (c.ge[g]) ge += std::string(" '") + GN[g] + "' " + num(GEF[g][c.ge[g]]) + " /\n";
             if (!we.empty()) s += "WEFAC\n" + we + "/\n";
             if (!ge.empty()) s += "GEFAC\n" + ge + "/\n";
         }
         if (r == 1 && c.xe) {
-            s += "WEFAC\n"; for (int w = 0; w < 3; ++w) s += std::string(" '") + WN[w] + "' " + num(WEF[w][c.wei(w, 1)]) + " /\n";
+            s += "WEFAC\n"; for (int w = 0; w < 3; ++w) s += std::string(" '") + c.wn(w) + "' " + num(WEF[w][c.wei(w, 1)]) + " /\n";
             s += "/\nGEFAC\n"; for (int g = 0; g < c.ng; ++g) s += std::string(" '") + GN[g] + "' " + num(GEF[g][c.gei(g, 1)]) + " /\n";
             s += "/\n";
         }
@@ -373,7 +380,7 @@ static int cal_index(const std::string& n) { static const char* N[] = {"TIME", "
 
 // ------------------------------------------------------------ execution ----
 struct Mismatch { int kw; int node; int eval; double got, want; bool missing; };
-static std::string node_name(const Case& c, int n) { if (n < 3) return WN[n]; if (n < 3 + c.ng) return GN[n - 3]; return "FIELD"; }
+static std::string node_name(const Case& c, int n) { if (n < 3) return c.wn(n); if (n < 3 + c.ng) return GN[n - 3]; return "FIELD"; }
 static bool close_enough(double got, double want) {
     if (std::isnan(got) || std::isnan(want)) return false;
     return std::fabs(got - want) <= 1e-10 * std::max(std::fabs(got), std::fabs(want)) + 1e-13;
@@ -402,7 +409,7 @@ static Outcome run_case(const Case& c) {
             for (int q = 0; q < 6; ++q) dw.rates.set(opts[q], fp_rate(w, q, (int)k, c.kind[w], c.status[w]));
             dw.bhp = 1.0e7;
             dw.dynamicStatus = c.status[w] == 0 ? Well::Status::OPEN : c.status[w] == 1 ? Well::Status::SHUT : Well::Status::STOP;
-            wells[WN[w]] = dw;
+            wells[c.wn(w)] = dw;
         }
         b.sum->eval(st, evs[k].report, evs[k].t, wells, {}, {}, {}, {}, {});
         ref.step((int)k, evs[k].dt, evs[k].hist_step, expect, cal);
@@ -417,7 +424,7 @@ static Outcome run_case(const Case& c) {
             int n0 = kw.ent == 'W' ? 0 : kw.ent == 'G' ? 3 : nn - 1, n1 = kw.ent == 'W' ? 3 : nn;
             for (int n = n0; n < n1; ++n) {
                 bool has; double got = 0;
-                if (kw.ent == 'W') { has = st.has_well_var(WN[n], kw.name); if (has) got = st.get_well_var(WN[n], kw.name); }
+                if (kw.ent == 'W') { has = st.has_well_var(c.wn(n), kw.name); if (has) got = st.get_well_var(c.wn(n), kw.name); }
                 else if (kw.ent == 'G') { std::string g = node_name(c, n); has = st.has_group_var(g, kw.name); if (has) got = st.get_group_var(g, kw.name); }
                 else { has = st.has(kw.name); if (has) got = st.get(kw.name); }
                 o.obs = vf::fnv(&got, 8, o.obs); ++o.compared;
@@ -439,6 +446,8 @@ static std::string diagnose(Case& c, int kw, const Mismatch& first) {
     // order matters only for the label; every reset that keeps the failure is kept, so the reported case is small
     bool need_units = false, need_efac = false, need_status = false, need_kind = false, need_seq = false;
     { Case d = c; d.us = 0; if (c.us != 0) { if (fails(d, kw)) c = d; else need_units = true; } }
+    bool need_naming = false;
+    { Case d = c; d.naming = 0; if (c.naming != 0) { if (fails(d, kw)) c = d; else need_naming = true; } }
     { Case d = c; bool any = false; for (int i = 0; i < 3; ++i) { any |= d.we[i] != 0; d.we[i] = 0; } for (int i = 0; i < 4; ++i) { any |= d.ge[i] != 0; d.ge[i] = 0; } any |= d.xe != 0; d.xe = 0; if (any) { if (fails(d, kw)) c = d; else need_efac = true; } }
     { Case d = c; bool any = false; for (int i = 0; i < 3; ++i) { any |= d.status[i] != 0; d.status[i] = 0; } if (any) { if (fails(d, kw)) c = d; else need_status = true; } }
     { Case d = c; bool any = false; for (int i = 0; i < 3; ++i) { any |= d.kind[i] != 0; d.kind[i] = 0; } if (any) { if (fails(d, kw)) c = d; else need_kind = true; } }
@@ -458,7 +467,8 @@ static std::string diagnose(Case& c, int kw, const Mismatch& first) {
     while (c.seq.size() > 1) { Case d = c; d.seq.pop_back(); d.seq.back().second = 0; if (fails(d, kw)) c = d; else break; }
     if (need_units) return std::string("units:") + USYS[c.us];
     if (k.cls == K_CAL) return "calendar";
-    if (need_efac) return "efac";
+    if (need_efac) return need_naming ? "efac:declaration-order" : "efac";
+    if (need_naming) return "declaration-order";
     if (need_status) { bool shut = false; for (int i = 0; i < 3; ++i) shut |= c.status[i] == 1; return shut ? "shut" : "sign"; }
     if (need_kind) return k.hist ? "history" : "sign";
     if (need_seq) return "accumulate";
@@ -548,7 +558,7 @@ static bool setup_catalogue() {
         Built& b = build(c);
         if (!b.sum) { R->violation("C09:harness:base-deck", "default model does not build: " + b.error); return false; }
         SummaryState st(TimeService::from_time_t(b.sched->getStartTime()), 0.0);
-        data::Wells wells; for (int w = 0; w < 3; ++w) { data::Well dw; dw.rates.set(data::Rates::opt::oil, -1.0); wells[WN[w]] = dw; }
+        data::Wells wells; for (int w = 0; w < 3; ++w) { data::Well dw; dw.rates.set(data::Rates::opt::oil, -1.0); wells[c.wn(w)] = dw; }
         b.sum->eval(st, 1, 86400.0, wells, {}, {}, {}, {}, {});
         for (auto& k : rec) {
             bool has = k.ent == 'W' ? st.has_well_var("W1", k.name) : k.ent == 'G' ? st.has_group_var("G1", k.name) : st.has(k.name);
@@ -651,6 +661,7 @@ int main(int argc, char** argv) {
             for (int w = 0; w < 3; ++w) c.we[w] = ch.dev(3);
             for (int g = 0; g < ng; ++g) c.ge[g] = ch.dev(3);
             c.xe = ch.dev(2);
+            { static const int NA[4] = {0, 1, 2, 6}; c.naming = NA[ch.dev(4)]; }     // name order, reverse, B A C, W_2 W_9 W_10
             c.seq = seqA[ch.dev((int)seqA.size())];
             c.init = ch.dev(2);
             for (int w = 0; w < 3; ++w) c.status[w] = ch.dev(3);
@@ -672,6 +683,21 @@ int main(int argc, char** argv) {
             if (stop()) break;
             Case c = Case::parse(models[m]); c.us = us; c.start = (int)((q + m) % 3); c.seq = seq3[q]; c.init = init; c.xe = (int)((q + m) % 2);
             exec("B_sequences_x_units", c);
+        }
+    }
+
+    // ---- regime D: well declaration order vs name order (all 6 non-default namings) x forest x placement x efficiency factors
+    //      quick: one pattern with every factor non-unit; thorough: complete 2-valued product (2^6)
+    {
+        use_summary_for(3);
+        for (auto& t : tr3) {
+            Case c; c.ng = 3; set_tree(c, t);
+            for (auto& pl : placements(c)) for (int nm = 1; nm <= 6; ++nm) for (int e = (run.thorough() ? 0 : 63); e < 64 && !stop(); ++e) {
+                for (int w = 0; w < 3; ++w) { c.wg[w] = pl[w]; c.we[w] = (e >> w) & 1; c.ge[w] = (e >> (3 + w)) & 1; }
+                c.naming = nm; c.kind[0] = 0; c.kind[1] = 0; c.kind[2] = 1;
+                c.seq = {{0, 0}, {2, 0}};
+                exec("D_declaration_order", c);
+            }
         }
     }
 
@@ -731,10 +757,11 @@ int main(int argc, char** argv) {
     if (run.counters["violations_total"] > 300) { run.exhaustive = false; run.cap_note += "stopped after >300 mismatching vectors; "; }
     run.count("model_builds", (long long)g_builds);
     run.rule = std::string("models: 3 wells (fingerprint rates per well x phase x evaluation, sign by kind) in leaf groups of a group forest under FIELD; dimensions: forest (all 16 labelled forests of 3 groups") +
-        (run.thorough() ? "; all 125 of 4 groups, depth <= 4" : "") + ") x leaf placement of the wells x WEFAC/GEFAC in {1, ~0.5, ~0.25} distinct per entity x kind {producer WCONHIST, water injector, gas injector WCONINJH} x dynamic status {OPEN, SHUT, STOP} x {METRIC, FIELD, LAB, PVT-M} x 3 start dates x evaluation sequences over {1 d, 10 d, 0.5 d} with ministep flags x {with, without} step-0 evaluation x {constant, changed at report step 2} efficiency factors. " +
+        (run.thorough() ? "; all 125 of 4 groups, depth <= 4" : "") + ") x leaf placement of the wells x WEFAC/GEFAC in {1, ~0.5, ~0.25} distinct per entity x kind {producer WCONHIST, water injector, gas injector WCONINJH} x dynamic status {OPEN, SHUT, STOP} x {METRIC, FIELD, LAB, PVT-M} x 3 start dates x evaluation sequences over {1 d, 10 d, 0.5 d} with ministep flags x {with, without} step-0 evaluation x {constant, changed at report step 2} efficiency factors x well naming {declared in name order W1 W2 W3; the 5 other permutations of OP_A OP_B OP_C; W_2 W_9 W_10 (numeric, not lexicographic)}. " +
         "A: every combination with <= 2 deviations from the default (open producers, constant efficiency 1, METRIC, one 1 d step, no step-0 evaluation) over all 105 forest x placement pairs, all 21 sequences of <= 2 evaluations" +
         (run.thorough() ? ", and every combination with exactly 3 deviations where the sequence is one of {1d; 10d,0.5d; 1d(ministep),10d; 0.5d,1d}; " : "; ") +
-        "B: all 129 sequences of <= 3 evaluations x 4 unit systems x step-0 evaluation on 3 fixed rich models" +
+        "(naming alphabet in A: name order, reverse, B A C, W_2 W_9 W_10); B: all 129 sequences of <= 3 evaluations x 4 unit systems x step-0 evaluation on 3 fixed rich models" +
+        (run.thorough() ? "; D: 6 non-default namings x 105 pairs x complete 2^6 efficiency product" : "; D: 6 non-default namings x 105 pairs x all factors non-unit") +
         (run.thorough() ? "; C1: 105 pairs x complete 3^6 efficiency product x 2 kind assignments; C2: 105 pairs x 27 kind x 27 status assignments; C3: 1420 pairs (4 groups) x complete 2^7 efficiency product; C4: 450 pairs (4 groups, increasing forests) x 3-valued efficiency factors on <= 2 entities" : "") +
         ". Oracle: after every Summary::eval each of the checked vectors (see notes.vectors_checked) at every well/group/FIELD node equals the harness reference (rel 1e-10). distinct = distinct vectors of all observed values";
     return run.finish();
